@@ -31,6 +31,8 @@ structure Cfg.Good (c : Cfg) : Prop where
   swapPat : c.swapPat = .lit 10 :: (Re.lits kSwap ++ [.plus .ws, .cap .digit])
   /-- `_parse_smaps_rollup` is NOT wrapped by `@wrap_exceptions` -/
   rollupWrapped : c.rollupWrapped = false
+  /-- `memory_percent` rejects by membership in `list(pfullmem._fields)` -/
+  pctByMembership : c.pctByMembership = true
 
 /-! ### one step of `get_blocks` -/
 
